@@ -45,7 +45,7 @@ def main():
                 r = sh([os.path.join(ROOT, "check"), prop, tier], cwd=ROOT, env=dict(ENV, VERIF_REPO=wt), timeout=3600)
                 det = {0: "green", 1: "VIOLATION", 2: "infra"}.get(r.returncode, str(r.returncode))
                 exp = m.get("expect", "fail")
-                ok = (det == "VIOLATION") == (exp == "fail")
+                ok = (det == "VIOLATION") if exp == "fail" else (det == "green")
                 first = ""
                 for line in r.stdout.splitlines():
                     if line.startswith("  ") and not first:
